@@ -1,5 +1,7 @@
 (* C15: `knut infer` edits only the placeholder account.
-   op C15.infer  input: "<orig|fixed> <hex placeholder> <hex training> <hex target>"
+   op C15.infer  input: "<fixed|orig> <hex placeholder> <hex training> <hex target>"
+     (first field: model variant; fixed = the repaired code, /repo e8bd689, the default; orig = the code before it,
+      kept for replaying the cases of findings/C15-infer.md)
      observed: OK <hex stdout> ; <Go tree of stdout | REPARSE-ERR> ; <det|nondet>  |  ERR <hex stdout>
      model   : OK <hex> | ERR       (checks/c15.py compares with the first field / "ERR")
                the implementation's choices (read off the observed tree at the placeholder
@@ -35,7 +37,7 @@ let () =
   register "C15.infer" (fun inp obs ->
     match String.split_on_char ' ' inp with
     | [variant; hph; htr; htg] ->
-      let v = if variant = "fixed" then K.BayesM.Fixed else K.BayesM.Orig in
+      let v = if variant = "orig" then K.BayesM.Orig else K.BayesM.Fixed in
       let ph = text_of_hex hph and training = text_of_hex htr and target = text_of_hex htg in
       let ptr = K.SynM.parse_text letter digit training and ptg = K.SynM.parse_text letter digit target in
       let obs_fields = Drv_c08.split_fields obs in
